@@ -26,7 +26,7 @@ Steps(c) == IF c.mode = "record" THEN RecordSteps ELSE PlaySteps
 \* what the awaited call can observe under a behaviour: "resp_ok", "resp_bad", "timeout", "eof"
 Observes(b) ==
   CASE b = "ok" -> {"resp_ok"}
-    [] b \in {"status_404", "status_500", "redirect", "redirect_downgrade", "malformed", "bad_sdp",
+    [] b \in {"status_404", "status_500", "redirect", "redirect_downgrade", "redirect_loop", "malformed", "bad_sdp",
               "bad_control", "bad_transport", "bad_interleaved", "bad_ssrc", "wrong_session",
               "no_session", "huge_header"} -> {"resp_bad"}
     [] b \in {"wrong_cseq", "no_cseq", "silence", "inject_request", "inject_frame", "chatty"} -> {"timeout", "resp_ok"}
@@ -78,7 +78,7 @@ CallsReturn == waiting ~> ~waiting
 \* once the connection is gone, a later call fails without waiting
 FailFast == (~connUp /\ ~waiting /\ result = "ok") => FALSE
 
-AllBehaviours == {"ok", "status_404", "status_500", "redirect", "redirect_downgrade", "malformed", "bad_sdp",
+AllBehaviours == {"ok", "status_404", "status_500", "redirect", "redirect_downgrade", "redirect_loop", "malformed", "bad_sdp",
                   "bad_control", "bad_transport", "bad_interleaved", "bad_ssrc", "wrong_session", "no_session",
                   "huge_header", "wrong_cseq", "no_cseq", "silence", "inject_request", "inject_frame", "chatty",
                   "dup", "delay", "close", "close_mid_response", "garbage_then_close", "stall_reads",
